@@ -52,6 +52,7 @@ func allShapes(thorough bool) []shape {
 	shapesMisc(ss)
 	shapesScope(ss, thorough)
 	shapesDegenerate(ss, thorough)
+	shapesControl(ss, thorough)
 	return ss.list
 }
 
@@ -1754,6 +1755,162 @@ func nop2@(p int, q int) {}
 				h = helpers2
 			}
 			ss.add("degenerate", st.name+"/"+cx.name, "", h+src, false)
+		}
+	}
+}
+
+// ---- control targets: which construct does a break / continue / fallthrough / return leave? ----------------------------------
+
+// shapesControl: OUTER { mark; [if i == a { PRE }]; INNER; [if i == b { POST }]; mark } ; mark
+// with OUTER in for / range over slice, one-entry map, string, int / tagged and
+// tagless switch (labelled "lo" when an action names it), INNER in for / range /
+// switch (each with nothing, a break or a continue of its own inside) / if /
+// block / function-literal call, and PRE, POST in: nothing, break, continue
+// (inside loops), break lo, continue lo (loops), return, fallthrough (switch,
+// POST only). Every executed statement adds its own power of ten, so the result
+// shows where each jump landed. Plus two three-level nests (for>switch>for and
+// switch>for>switch) with actions after each inner construct.
+func shapesControl(ss *shapeSet, thorough bool) {
+	type outer struct {
+		name, open, close string // %L label prefix
+		loop                  bool
+	}
+	outers := []outer{
+		{"for", "%Lfor i := 0; i < 3; i++ {", "}", true},
+		{"switch-tag", "i := a & 3\n\t%Lswitch i {\n\tcase 0, 1, 2:", "case 3:\n\t\tx += 5000000\n\tdefault:\n\t\tx += 7000000\n\t}", false},
+		{"range-slice", "%Lfor i := range []int{5, 6, 7} {", "}", true},
+		{"switch-tagless", "i := b & 3\n\t%Lswitch {\n\tcase i < 3:", "case i == 3:\n\t\tx += 5000000\n\tdefault:\n\t\tx += 7000000\n\t}", false},
+		{"range-map", "%Lfor i := range map[int]int{1: 4} {", "}", true},
+		{"range-string", "%Lfor i := range \"abc\" {", "}", true},
+		{"range-int", "%Lfor i := range 3 {", "}", true},
+		{"for-cond", "i := -1\n\t%Lfor i < 2 {\n\t\ti++", "}", true},
+	}
+	type inner struct{ name, text string }
+	inners := []inner{
+		{"for", "for j := 0; j < 2; j++ {\n\t\t\t_ = j\n\t\t\tx += 100\n\t\t}"},
+		{"range", "for j := range []int{8, 9} {\n\t\t\t_ = j\n\t\t\tx += 100\n\t\t}"},
+		{"switch", "switch i {\n\t\tcase 1:\n\t\t\tx += 100\n\t\tdefault:\n\t\t\tx += 200\n\t\t}"},
+		{"if", "if i != 1 {\n\t\t\tx += 100\n\t\t}"},
+		{"block", "{\n\t\t\tx += 100\n\t\t}"},
+		{"func-literal", "x += func(v int) int { return v * 100 }(1)"},
+		{"for-with-break", "for j := 0; j < 2; j++ {\n\t\t\tif j == b {\n\t\t\t\tbreak\n\t\t\t}\n\t\t\tx += 100\n\t\t}"},
+		{"for-with-continue", "for j := 0; j < 2; j++ {\n\t\t\tif j == b {\n\t\t\t\tcontinue\n\t\t\t}\n\t\t\tx += 100\n\t\t}"},
+		{"range-with-break", "for j := range []int{8, 9} {\n\t\t\tif j == b {\n\t\t\t\tbreak\n\t\t\t}\n\t\t\tx += 100\n\t\t}"},
+		{"range-with-continue", "for j := range []int{8, 9} {\n\t\t\tif j == a {\n\t\t\t\tcontinue\n\t\t\t}\n\t\t\tx += 100\n\t\t}"},
+		{"switch-with-break", "switch i {\n\t\tcase 1:\n\t\t\tif b > 0 {\n\t\t\t\tbreak\n\t\t\t}\n\t\t\tx += 100\n\t\tdefault:\n\t\t\tx += 200\n\t\t}"},
+	}
+	acts := []string{"none", "break", "continue", "break lo", "continue lo", "return x", "fallthrough"}
+	legal := func(o outer, act string, post bool) bool {
+		switch act {
+		case "continue", "continue lo":
+			return o.loop
+		case "fallthrough":
+			return !o.loop && post
+		}
+		return true
+	}
+	for oi, o := range outers {
+		for ii, in := range inners {
+			for _, pre := range acts {
+				for _, post := range acts {
+					if !legal(o, pre, false) || !legal(o, post, true) {
+						continue
+					}
+					if !thorough {
+						full := oi < 3 // for, tagged switch, range over slice: every PRE x POST
+						if ii >= 6 && pre != "none" {
+							continue // inner constructs with their own break/continue: POST only
+						}
+						if !full && pre != "none" && post != "none" {
+							continue
+						}
+					}
+					label := ""
+					if strings.Contains(pre, " lo") || strings.Contains(post, " lo") {
+						label = "lo:\n\t"
+					}
+					var b strings.Builder
+					b.WriteString("func T@(a int, b int) int {\n\tx := 0\n\t")
+					b.WriteString(strings.ReplaceAll(o.open, "%L", label))
+					b.WriteString("\n\t\t_ = i\n\t\tx += 1\n")
+					if pre != "none" {
+						b.WriteString("\t\tif i == a {\n\t\t\tx += 10\n\t\t\t" + pre + "\n\t\t}\n")
+					}
+					b.WriteString("\t\t" + in.text + "\n")
+					switch post {
+					case "none":
+						b.WriteString("\t\tx += 100000\n")
+					case "fallthrough":
+						b.WriteString("\t\tx += 10000\n\t\tfallthrough\n")
+					default:
+						b.WriteString("\t\tif i == b {\n\t\t\tx += 10000\n\t\t\t" + post + "\n\t\t}\n\t\tx += 100000\n")
+					}
+					b.WriteString("\t" + o.close + "\n\tx += 1000000\n\treturn x\n}\n")
+					tag := o.name + "/" + in.name + "/pre-" + strings.ReplaceAll(pre, " ", "-") + "/post-" + strings.ReplaceAll(post, " ", "-")
+					ss.add("control", tag, "", b.String(), false)
+				}
+			}
+		}
+	}
+	// three levels: for > switch > for
+	a1s := []string{"none", "break", "continue", "break lo", "continue lo", "break ls"}
+	a2s := []string{"none", "break", "continue", "break lo", "continue lo", "break ls", "return x"}
+	lab := func(name string, acts ...string) string {
+		for _, a := range acts {
+			if strings.HasSuffix(a, " "+name) {
+				return name + ":\n\t"
+			}
+		}
+		return ""
+	}
+	for _, a1 := range a1s {
+		for _, a2 := range a2s {
+			var b strings.Builder
+			b.WriteString("func T@(a int, b int) int {\n\tx := 0\n\t" + lab("lo", a1, a2) + "for i := 0; i < 3; i++ {\n\t\tx += 1\n\t\t" + strings.ReplaceAll(lab("ls", a1, a2), "\n\t", "\n\t\t") + "switch i {\n\t\tcase 0, 1:\n\t\t\tx += 10\n\t\t\tfor j := 0; j < 2; j++ {\n\t\t\t\tx += 100\n")
+			if a1 != "none" {
+				b.WriteString("\t\t\t\tif j == b {\n\t\t\t\t\t" + a1 + "\n\t\t\t\t}\n")
+			}
+			b.WriteString("\t\t\t\tx += 1000\n\t\t\t}\n")
+			if a2 != "none" {
+				b.WriteString("\t\t\tif i == a {\n\t\t\t\t" + a2 + "\n\t\t\t}\n")
+			}
+			b.WriteString("\t\t\tx += 10000\n\t\tdefault:\n\t\t\tx += 100000\n\t\t}\n\t\tx += 1000000\n\t}\n\tx += 10000000\n\treturn x\n}\n")
+			ss.add("control", "for>switch>for/in-"+strings.ReplaceAll(a1, " ", "-")+"/after-"+strings.ReplaceAll(a2, " ", "-"), "", b.String(), false)
+		}
+	}
+	// three levels: switch > for > switch
+	b1s := []string{"none", "break", "continue", "break lf", "continue lf", "break ls"}
+	b2s := []string{"none", "break", "continue", "break lf", "continue lf", "break ls"}
+	b3s := []string{"none", "break", "break ls", "return x", "fallthrough"}
+	for _, a1 := range b1s {
+		for _, a2 := range b2s {
+			for _, a3 := range b3s {
+				if !thorough && a1 != "none" && a1 != "break" && a2 != "none" && a3 != "none" && a3 != "break" {
+					continue
+				}
+				var b strings.Builder
+				b.WriteString("func T@(a int, b int) int {\n\tx := 0\n\t" + lab("ls", a1, a2, a3) + "switch {\n\tcase a >= 0:\n\t\tx += 1\n\t\t" + strings.ReplaceAll(lab("lf", a1, a2), "\n\t", "\n\t\t") + "for i := 0; i < 3; i++ {\n\t\t\tx += 10\n\t\t\tswitch i {\n\t\t\tcase 1:\n\t\t\t\tx += 100\n")
+				if a1 != "none" {
+					b.WriteString("\t\t\t\tif b > 0 {\n\t\t\t\t\t" + a1 + "\n\t\t\t\t}\n")
+				}
+				b.WriteString("\t\t\t\tx += 1000\n\t\t\t}\n")
+				if a2 != "none" {
+					b.WriteString("\t\t\tif i == b {\n\t\t\t\t" + a2 + "\n\t\t\t}\n")
+				}
+				b.WriteString("\t\t\tx += 10000\n\t\t}\n")
+				switch a3 {
+				case "none":
+				case "fallthrough":
+					b.WriteString("\t\tx += 100000\n\t\tfallthrough\n")
+				default:
+					b.WriteString("\t\tif a == 1 {\n\t\t\t" + a3 + "\n\t\t}\n")
+				}
+				if a3 != "fallthrough" {
+					b.WriteString("\t\tx += 100000\n")
+				}
+				b.WriteString("\tcase a < -1:\n\t\tx += 3000000\n\tdefault:\n\t\tx += 1000000\n\t}\n\tx += 10000000\n\treturn x\n}\n")
+				ss.add("control", "switch>for>switch/in-"+strings.ReplaceAll(a1, " ", "-")+"/after-"+strings.ReplaceAll(a2, " ", "-")+"/after-for-"+strings.ReplaceAll(a3, " ", "-"), "", b.String(), false)
+			}
 		}
 	}
 }
